@@ -92,7 +92,7 @@ package contracts
 //@   ensures s == addrNet[ref(a)]
 //@ extern func (ip net.IP) String() (s string)
 //@   pure
-//@   ensures s == ipStr[base(ip)]
+//@   ensures s == ipStr[base(ip)] && (len(ip) == 4 ==> s == ip4str(ip[0], ip[1], ip[2], ip[3]))
 //@ extern func (ip net.IP) Equal(x net.IP) (r bool)
 //@   pure
 //@   ensures r == (ipStr[base(ip)] == ipStr[base(x)])
@@ -121,3 +121,17 @@ package contracts
 //@ ghost global addrNet map[mathint]string
 //@ ghost global ipStr map[mathint]string
 //@ ghost global clock mathint
+
+// IPv4 text form as an injective function of the four bytes (trusted)
+//@ uf ip4str(a mathint, b mathint, c mathint, d mathint) string
+//@ ghost global ipUnspec map[mathint]bool
+//@ extern func (ip net.IP) IsUnspecified() (r bool)
+//@   pure
+//@   ensures r == ipUnspec[base(ip)]
+//@ extern func (n *net.IPNet) Contains(ip net.IP) (r bool)
+//@   pure
+//@ extern func (n *net.IPNet) String() (s string)
+//@   pure
+//@ extern func (ifc *transport.Interface) AddAddress(addr net.Addr)
+//@ extern func (ifc *transport.Interface) Addrs() (a []net.Addr, err error)
+//@   pure
